@@ -624,3 +624,116 @@ def nontrivial_key(c, impl):
     if impl is None or impl.startswith("G0") or impl.startswith("ERR"):
         return None
     return (c["line"].split()[0], c.get("scenario"), impl)
+
+
+# ---------------------------------------------------------------------------------------------
+# Engine-level part (oracle only): aggregates vs the metric recomputed from the rows the same query
+# without aggregation returns on the same quiescent state, over shards x memory / segments / compacted.
+from props import englib as _E
+
+_F = {"cases": cases, "run_sides": run_sides, "same": same, "oracle": oracle, "classify": classify,
+      "nontrivial_key": nontrivial_key}
+
+
+def _eng_cases(rng, tier):
+    out = []
+    n = 14 if tier == "quick" else 400
+    for i in range(n):
+        cfg = dict(rng.choice(_E.CFGS)); cfg["segments_per_merge"] = rng.choice([2, 3])
+        nctx = rng.range(1, 4)
+        evs, script = _E.gen_population(rng, rng.range(4, 36), nctx, rng.choice([3, 10, 1000]))
+        script.append(("quiesce",))
+        qs = []
+        for _ in range(5):
+            restr = rng.choice(["", "", f" FOR c{rng.below(nctx)}", f" WHERE k >= {rng.below(6)}"])
+            agg = rng.choice(["COUNT", "TOTAL k", "AVG k", "MIN k", "MAX k", "COUNT UNIQUE k", "COUNT BY g", "COUNT, TOTAL k BY g"])
+            script.append(("cmd", f"QUERY t{restr}"))
+            script.append(("cmd", f"QUERY t{restr} {agg}"))
+            qs.append((restr, agg))
+        out.append({"kind": "engine", "line": "", "cfg": cfg, "script": [list(x) for x in script], "evs": evs, "qs": qs,
+                    "show": f"engine {cfg}: {len(evs)} events, " + "; ".join(f"QUERY t{r} {a}" for r, a in qs)})
+    return out
+
+
+def cases(rng, tier):
+    return _F["cases"](rng, tier) + _eng_cases(rng.fork("engine"), tier)
+
+
+def run_sides(cases_, model_ok):
+    fn = [c for c in cases_ if c.get("kind") != "engine"]
+    en = [c for c in cases_ if c.get("kind") == "engine"]
+    fi, fm = _F["run_sides"](fn, model_ok) if fn else ([], [])
+    ei = _E.run_scripts(en) if en else []
+    it_f, it_m, it_e = iter(fi), iter(fm), iter(ei)
+    impl, model = [], []
+    for c in cases_:
+        if c.get("kind") == "engine":
+            impl.append(next(it_e)); model.append(None)
+        else:
+            impl.append(next(it_f)); model.append(next(it_m))
+    return impl, model
+
+
+def same(c, impl, model):
+    return True if c.get("kind") == "engine" else _F["same"](c, impl, model)
+
+
+def _eng_judge(c, impl):
+    """-> (why, class) of the first aggregate that differs from the fold over the selection"""
+    if not impl.get("ok"):
+        return "engine harness: " + str(impl.get("err")), None
+    res = impl["res"][-2 * len(c["qs"]):]
+    for i, (restr, agg) in enumerate(c["qs"]):
+        sel, ag = res[2 * i], res[2 * i + 1]
+        if sel["status"] != 200 or ag["status"] != 200:
+            continue
+        ks = [x["k"] for x in sel["rows"]]
+        rows = ag["rows"]
+        def bad(msg, cls):
+            return f"QUERY t{restr} {agg}: {msg} (selection has {len(ks)} rows)", cls
+        if agg == "COUNT":
+            got = rows[0]["count"] if rows else 0
+            if got != len(ks):
+                return bad(f"COUNT {got}", "AggregateCountsMoreThanSelected" if got > len(ks) else None)
+        elif agg == "TOTAL k":
+            got = rows[0]["total_k"] if rows else 0
+            if got != sum(ks):
+                return bad(f"TOTAL {got} vs {sum(ks)}", "AggregateCountsMoreThanSelected" if got > sum(ks) else None)
+        elif agg in ("MIN k", "MAX k"):
+            key = "min_k" if agg == "MIN k" else "max_k"
+            got = rows[0].get(key) if rows else None
+            exp = (min(ks) if agg == "MIN k" else max(ks)) if ks else None
+            if ks and got != exp:
+                over = restr != "" or True
+                return bad(f"{agg} {got} vs {exp}", "AggregateCountsMoreThanSelected")
+        elif agg == "AVG k":
+            got = rows[0].get("avg_k") if rows else None
+            if ks and (got is None or abs(got - sum(ks) / len(ks)) > 1e-9):
+                return bad(f"AVG {got} vs {sum(ks) / len(ks)}", "AggregateCountsMoreThanSelected")
+        elif agg == "COUNT UNIQUE k":
+            got = rows[0].get("count_unique_k") if rows else 0
+            if got != len(set(ks)):
+                return bad(f"COUNT UNIQUE {got} vs {len(set(ks))}", "CountUniqueTypedBatch")
+        elif agg.endswith("BY g"):
+            exp = {}
+            for x in sel["rows"]:
+                exp[x["g"]] = exp.get(x["g"], 0) + 1
+            got = {x["g"]: x["count"] for x in rows}
+            if got != exp:
+                more = all(got.get(g, 0) >= n for g, n in exp.items())
+                return bad(f"COUNT BY g {got} vs {exp}", "AggregateCountsMoreThanSelected" if more else None)
+    return None, None
+
+
+def oracle(c, impl):
+    return _eng_judge(c, impl)[0] if c.get("kind") == "engine" else _F["oracle"](c, impl)
+
+
+def classify(c, impl):
+    return _eng_judge(c, impl)[1] if c.get("kind") == "engine" else _F["classify"](c, impl)
+
+
+def nontrivial_key(c, impl):
+    if c.get("kind") == "engine":
+        return c["show"] if impl.get("ok") else None
+    return _F["nontrivial_key"](c, impl)
